@@ -125,6 +125,20 @@ def topologies():
     s["ups"]["up1"] = {"journey": "uj1", "devices": ["dev1"], "network": "net1", "country": "c1", "start": "2025-01-01T02", "values": [2, 1, 0, 0, 3, 1, 2]}
     s["system"]["ups"] = ["up0", "up1"]
     T["two_independent_chains"] = s
+    # names are labels, not identifiers: the two chains again, every object of a class carrying the same display name
+    s = _copy.deepcopy(T["two_independent_chains"])
+    for sec, label in (("storages", "storage"), ("servers", "server"), ("jobs", "job"), ("steps", "step"), ("journeys", "journey"), ("devices", "device"),
+                       ("networks", "network"), ("countries", "country"), ("ups", "usage pattern")):
+        for n in s[sec]: s[sec][n]["display_name"] = label
+    T["same_display_names"] = s
+    # a step without any job (reading time) between two steps with jobs: it still delays what follows
+    s = base_spec()
+    s["jobs"]["job1"] = {"server": "srv0", "request_duration": (3, "min"), "data_transferred": (2, "MB"), "data_stored": (1, "MB")}
+    s["steps"]["step_idle"] = {"jobs": [], "user_time_spent": (95, "min")}
+    s["steps"]["step1"] = {"jobs": ["job1", "job0"], "user_time_spent": (10, "min")}
+    s["journeys"]["uj0"]["steps"] = ["step0", "step_idle", "step1"]
+    s["storages"]["st0"] = {"base_storage_need": (1, "TB")}
+    T["idle_step_between_job_steps"] = s
     # one server shared by the (distinct) jobs of two journeys; shared network, country and device
     s = base_spec()
     s["jobs"]["job1"] = {"server": "srv0", "request_duration": (40, "min"), "ram_needed": (300, "MB")}
@@ -201,28 +215,33 @@ def build(spec, compute=True):
             if k not in ("server", "display_name"): dv[k] = Q(v)
         o[n] = Job(dn(n, d), server=o[d["server"]], **dv)
     for n, d in spec["steps"].items():
-        o[n] = UsageJourneyStep(n, user_time_spent=Q(d["user_time_spent"]), jobs=[o[j] for j in d["jobs"]])
+        o[n] = UsageJourneyStep(dn(n, d), user_time_spent=Q(d["user_time_spent"]), jobs=[o[j] for j in d["jobs"]])
     for n, d in spec["journeys"].items():
-        o[n] = UsageJourney(n, uj_steps=[o[s] for s in d["steps"]])
+        o[n] = UsageJourney(dn(n, d), uj_steps=[o[s] for s in d["steps"]])
     for n, d in spec["devices"].items():
         kw = {}
         if "power" in d: kw["power"] = Q(d["power"])
         if "cff" in d: kw["carbon_footprint_fabrication"] = Q(d["cff"])
         if "lifespan" in d: kw["lifespan"] = Q(d["lifespan"])
         if "fraction" in d: kw["fraction_of_usage_time"] = Q(d["fraction"])
-        o[n] = Device.laptop(n, **kw)
+        o[n] = Device.laptop(dn(n, d), **kw)
     for n, d in spec["networks"].items():
-        o[n] = Network(n, bandwidth_energy_intensity=Q(d.get("bei", (0.05, "kWh/GB"))))
+        o[n] = Network(dn(n, d), bandwidth_energy_intensity=Q(d.get("bei", (0.05, "kWh/GB"))))
     for n, d in spec["countries"].items():
-        o[n] = Country(n, n[:3].upper(), Q(d["aci"]), SourceObject(pytz.timezone(TZ[d["tz"]])))
+        o[n] = Country(dn(n, d), n[:3].upper(), Q(d["aci"]), SourceObject(pytz.timezone(TZ[d["tz"]])))
     for n, d in spec["ups"].items():
         hv = SourceHourlyValues(create_hourly_usage_df_from_list([float(x) for x in d["values"]], _dt(d["start"])))
-        o[n] = UsagePattern(n, o[d["journey"]], [o[x] for x in d["devices"]], o[d["network"]], o[d["country"]], hv)
+        o[n] = UsagePattern(dn(n, d), o[d["journey"]], [o[x] for x in d["devices"]], o[d["network"]], o[d["country"]], hv)
     if compute:
         b.system = System("system", [o[x] for x in spec["system"]["ups"]])
         o["system"] = b.system
     b.system_handles = {id(getattr(v, "_value", v)): k for k, v in o.items()}
     if b.system is not None: HANDLES[id(b.system)] = b.system_handles
+    HANDLE_OF.update(b.system_handles); KEEP_ALIVE.append(b)
+    if len(KEEP_ALIVE) > 48:
+        old = KEEP_ALIVE.pop(0)
+        for k in old.system_handles:
+            if HANDLE_OF.get(k) is not None and not any(k in x.system_handles for x in KEEP_ALIVE): HANDLE_OF.pop(k, None)
     return b
 
 
@@ -232,11 +251,20 @@ def phys_of_quantity(q):
     return float(b.magnitude), str(b.units)
 
 
+HANDLE_OF = {}      # id(object) -> handle of the declarative specification (names are not identifiers: objects may share a display name)
+KEEP_ALIVE = []     # the last built systems stay referenced so that id() keys are not reused while their handles are registered
+
+
+def _key_name(k):
+    k = getattr(k, "_value", k)
+    return HANDLE_OF.get(id(k), getattr(k, "name", str(k)))
+
+
 def view(v):
     """concrete twin of the abstract view of an explainable value"""
     if isinstance(v, dict):
         # an Empty entry carries no quantity: {up: Empty} and a missing key are the same physical content
-        return {"dict": {getattr(k, "name", str(k)): view(x) for k, x in v.items() if not isinstance(x, EmptyExplainableObject)}}
+        return {"dict": {_key_name(k): view(x) for k, x in v.items() if not isinstance(x, EmptyExplainableObject)}}
     if isinstance(v, EmptyExplainableObject): return {"empty": True}
     if isinstance(v, ExplainableHourlyQuantities):
         s = v.value["value"].pint.to_base_units()
@@ -327,10 +355,14 @@ def numeric_edits(spec):
               _setq(n, "compute_needed", (0.3, "cpu_core")), _setq(n, "data_stored", (250, "kB"))]
     for n in spec["servers"]:
         E += [_setq(n, "power", (400, "W")), _setq(n, "ram", (64, "GB")), _setq(n, "power_usage_effectiveness", (1.5, "dimensionless")),
-              _setq(n, "average_carbon_intensity", (200, "g/kWh")), _setq(n, "base_ram_consumption", (10, "GB")), _setq(n, "lifespan", (4, "year"))]
+              _setq(n, "average_carbon_intensity", (200, "g/kWh")), _setq(n, "base_ram_consumption", (10, "GB")), _setq(n, "lifespan", (4, "year")),
+              _setq(n, "idle_power", (60, "W"))]
+        if spec["servers"][n].get("server_type") == "on-premise":
+            E += [_setq(n, "fixed_nb_of_instances", (6000, "dimensionless"))]     # pinning (or re-pinning) the count on the live model
     for n in spec["storages"]:
         E += [_setq(n, "data_replication_factor", (2, "dimensionless")), _setq(n, "storage_capacity", (2, "TB")),
-              _setq(n, "data_storage_duration", (2, "hour")), _setq(n, "base_storage_need", (8, "TB"))]
+              _setq(n, "data_storage_duration", (2, "hour")), _setq(n, "base_storage_need", (8, "TB")),
+              _setq(n, "fixed_nb_of_instances", (7000, "dimensionless"))]
     for n in spec["steps"]:
         E += [_setq(n, "user_time_spent", (95, "min"))]
     for n in spec["networks"]:
